@@ -814,6 +814,21 @@ func (ft *FT) contractCall(st *State, guard Term, con *FuncContract, name string
 			ft.applyFrame(st, targets, written)
 		}
 	}
+	if closure != nil && callee != nil {
+		// captured locals kept in private cells: a closure that assigns its free variable changes them
+		for k, fv := range callee.FreeVars {
+			if k >= len(closure.Bindings) {
+				break
+			}
+			al, ok := closure.Bindings[k].(*ssa.Alloc)
+			if !ok || !ft.privateAlloc(al) {
+				continue
+			}
+			if storesTo(callee, fv) {
+				ft.freshVersion(st, ft.privKey(al))
+			}
+		}
+	}
 	var rs []Term
 	post := ft.calleeCtx(callee, closure, c, args, st, pre)
 	for i := 0; i < sig.Results().Len(); i++ {
@@ -837,6 +852,32 @@ func (ft *FT) contractCall(st *State, guard Term, con *FuncContract, name string
 	}
 	if con.Functional {
 		ft.functionalFacts(st, name, sig, args, rs)
+	}
+	if con.MayPanic {
+		// the callee either returns (ensures) or exits by panic (ensures_on_panic); $panicking says which
+		ft.keySort("$panicking", "Bool")
+		pan := ft.fresh("repanics", "Bool")
+		ft.set(st, "$panicking", pan)
+		post.st = st
+		var en, ep []Term
+		for _, e := range con.Ensures {
+			t, err := post.boolExpr(e.Expr)
+			if err != nil {
+				ft.errf("call %s: ensures %q: %v", name, e.Text, err)
+				continue
+			}
+			en = append(en, t)
+		}
+		for _, e := range con.EnsuresP {
+			t, err := post.boolExpr(e.Expr)
+			if err != nil {
+				ft.errf("call %s: ensures_on_panic %q: %v", name, e.Text, err)
+				continue
+			}
+			ep = append(ep, t)
+		}
+		ft.assume(guard, ite(pan, and(ep...), and(en...)))
+		return rs
 	}
 	for _, e := range con.Ensures {
 		t, err := post.boolExpr(e.Expr)
@@ -951,7 +992,26 @@ func (ft *FT) paramCall(st *State, guard Term, pc *ParamContract, c *ssa.CallCom
 		}
 		ft.assume(guard, t)
 	}
+	if pc.MayPanic && !ft.unwinding {
+		// the callee may panic instead of returning: unwind through the deferred calls on a copy of the state
+		pv := ft.fresh("panics", "Bool")
+		ft.panicUnwind(st.clone(), and(guard, pv), pos)
+		ft.curGuard = and(guard, not(pv))
+	}
 	return rs
+}
+
+// panicUnwind: a panic propagates out of the function: deferred calls run with $panicking set, then the
+// panic exit is checked against ensures_on_panic (if some deferred call recovered, nothing more is checked).
+func (ft *FT) panicUnwind(st *State, guard Term, pos token.Pos) {
+	ft.keySort("$panicking", "Bool")
+	ft.set(st, "$panicking", "true")
+	ft.unwinding = true
+	ft.runDefers(st, guard, pos)
+	ft.unwinding = false
+	still := ft.get(st, "$panicking")
+	ft.exitObligations(pos, st, and(guard, still), nil, true)
+	ft.note("a panic recovered by a deferred call turns into a normal return whose results are not checked")
 }
 
 func (ft *FT) builtin(st *State, guard Term, b *ssa.Builtin, c *ssa.CallCommon, preArgs []Term, pos token.Pos) []Term {
@@ -1018,7 +1078,12 @@ func (ft *FT) builtin(st *State, guard Term, b *ssa.Builtin, c *ssa.CallCommon, 
 		ft.set(st, "CLOSED", app("store", cl, args[0], "true"))
 		return nil
 	case "recover":
+		// recover() is non-nil exactly when the function runs as a deferred call of a panicking goroutine, and stops the panic
+		ft.keySort("$panicking", "Bool")
+		was := ft.get(st, "$panicking")
 		r := ft.fresh("recover", "Iface")
+		ft.assume("true", eq(not(eq(app("dyn", r), "0")), was))
+		ft.set(st, "$panicking", "false")
 		return []Term{r}
 	case "print", "println":
 		return nil
@@ -1170,6 +1235,25 @@ func isImpure(name string) bool {
 			if strings.Contains(name[strings.LastIndex(name, ".")+1:], w) {
 				return true
 			}
+		}
+	}
+	return false
+}
+
+// storesTo: the function (or a closure nested in it) assigns through the given free variable.
+func storesTo(fn *ssa.Function, fv *ssa.FreeVar) bool {
+	if fv.Referrers() == nil {
+		return false
+	}
+	for _, r := range *fv.Referrers() {
+		switch x := r.(type) {
+		case *ssa.Store:
+			if x.Addr == ssa.Value(fv) {
+				return true
+			}
+		case *ssa.UnOp, *ssa.DebugRef:
+		default:
+			return true // address escapes further: assume it may be assigned
 		}
 	}
 	return false
